@@ -175,7 +175,7 @@ def run(ctx):
         args = dict(k=k, overlap=overlap, minlength=minlength, maxlength=maxlength)
         try:
             seen = []
-            bound = monitors.step_bound([SubsequenceAlignment._best_matches.__code__], 400 * (c + 5) * (r + 5))
+            bound = monitors.step_bound([SubsequenceAlignment._best_matches.__code__], 300 * (c + 5) + 3000)
             with bound:
               for m in (a.kbest_matches(k, overlap, minlength, maxlength) if it % 3 == 0 else a.kbest_matches(**args)):
                   seg = [int(x) for x in m.segment]
@@ -231,7 +231,7 @@ def run(ctx):
         if it % 2 == 1:
             try:
                 lim = dict(overlap=overlap, minlength=minlength, maxlength=maxlength)
-                sbd = monitors.step_bound([SubsequenceAlignment._best_matches.__code__], 8000 * (c + 5) * (r + 5))
+                sbd = monitors.step_bound([SubsequenceAlignment._best_matches.__code__], 3000 * (c + 5) + 20000)
                 sbd.__enter__()
 
                 def rec_(ms):
@@ -307,7 +307,7 @@ def run(ctx):
             try:
                 argl = [dict(k=rng.choice([None, 2, 3]), overlap=rng.choice([0, 1]), minlength=rng.choice([1, 2]))
                         for _ in range(rng.choice([2, 3]))]
-                hb = monitors.step_bound([SubsequenceAlignment._best_matches.__code__], 4000 * (c + 5) * (r + 5))
+                hb = monitors.step_bound([SubsequenceAlignment._best_matches.__code__], 2400 * (c + 5) + 20000)
                 hb.__enter__()
                 fresh = []
                 for ar in argl:
